@@ -13,12 +13,14 @@ What is modelled, as the code is written:
   self; captured := the current table; install one wrapper per slot;
 * `Journal.__exit__` (171-175): reinstall the captured table; current := previous; active :=
   False.  It returns None, so an exception raised in the block propagates;
-* the four wrapper factories (_wrappers.py 32-126).  Order of effects as written:
-  `_init_wrapper` calls the original FIRST and records only if it returned; its own result is
-  None.  `_setter_wrapper`, `_method_wrapper`, `_container_method_wrapper` record FIRST and then
-  call the original and return its result (so a call that raises has already been recorded);
-  the container wrapper records on `getattr(self, target_attr)` (the owning graph / node), not on
-  the container;
+* the four wrapper factories (_wrappers.py 32-134).  Order of effects as written:
+  `_init_wrapper`: original; then `details_func(self)`; then record; result None.
+  `_setter_wrapper`: read the old value and build the details string; original; record; result
+  None (the wrapper has no return statement).  `_method_wrapper`, `_container_method_wrapper`:
+  details; original; record; return the original's result.  In all four an exception of the
+  original propagates before `record` is reached: a call that raises leaves no entry.  The
+  container wrapper records on `getattr(self, target_attr)` (the owning graph / node), read before
+  the call, not on the container;
 * `Journal.record` (182-196): appends an entry whose only designation of the object is a
   weak reference (plus the integer `id`), the operation name and strings;
 * the instrumented operations themselves are abstract: `Cfg.impl k self arg` is the behaviour of
@@ -27,14 +29,16 @@ What is modelled, as the code is written:
   how `Graph.append` reaches the patched `Node.graph` setter), sees their result (so it can catch
   an exception) and finally returns a value or raises.
 
-* the `details` argument of `record` is evaluated by the wrapper before anything is recorded
-  (it is an argument expression: `repr` of the arguments, `getattr(self, "_name")`, ...).  The model
-  keeps the *point* of that evaluation and whether it raises (`Cfg.details`); when it raises, the
-  wrapper raises at that point — for a setter / method before the original is called, for a
-  constructor after the original has run.  The strings themselves are not modelled.
+* the `details` expression (`repr` of the arguments, `getattr(self, "_name")`, ...) is evaluated by
+  the wrapper at a definite point: for a setter / method / container method BEFORE the original is
+  called, for a constructor AFTER the original has run.  The model keeps that point and what the
+  evaluation can do besides producing a string (`Cfg.details`): raise (the wrapper then raises at
+  that point), or change the state (e.g. consume a one-shot iterable argument).  The strings
+  themselves are not modelled.
 
-Assumed, not modelled (see harness/c20.py ASSUMPTIONS): evaluating `details` does not change IR
-state; no hooks are registered (`add_hook`); wrappers consume no recursion depth.
+Not modelled (see harness/c20.py ASSUMPTIONS): hooks (`add_hook`); recursion depth consumed by
+wrappers; user code that calls a captured bound method instead of looking the operation up on the
+class; what the fields `timestamp`, `class_`, `stack_trace`, `details` of an entry contain.
 -/
 namespace IrVerif.Journal
 
@@ -201,9 +205,10 @@ structure Cfg (σ : Type) where
   /-- `_graph` of an input/output/initializer container, `_owner` of an attribute container
       (assigned once in the container's constructor, _graph_containers.py 31, 265, 438) -/
   owner : Obj → Obj
-  /-- does the wrapper's `details` expression for slot `k`, called on `self` with `arg`, evaluate
-      normally in this IR state (`false`: it raises) -/
-  details : Nat → Obj → Val → σ → Bool
+  /-- evaluating the wrapper's `details` expression for slot `k`, called on `self` with `arg`, in
+      this state: `none` = it raises, `some s'` = it returns and leaves the state `s'` (the state
+      includes one-shot iterables passed as arguments) -/
+  details : Nat → Obj → Val → σ → Option σ
 
 def targetOf (owner : Obj → Obj) (k : Nat) (self : Obj) : Obj :=
   if kindOf k = .container then owner self else self
@@ -240,15 +245,22 @@ def runImpl {σ : Type} (cfg : Cfg σ)
           let r := runImpl cfg body inner self arg w
           match r.2 with
           | .ret _ =>
-              if cfg.details k self arg r.1.ir then (record j k self r.1, .ret .none)
-              else (r.1, .raise detailsExn)
+              match cfg.details k self arg r.1.ir with
+              | some s' => (record j k self { r.1 with ir := s' }, .ret .none)
+              | none => (r.1, .raise detailsExn)
           | .raise e => (r.1, .raise e)
-      | _ =>
+      | kind =>
           -- _setter_wrapper / _method_wrapper / _container_method_wrapper:
-          -- journal.record(target, operation, details=...); return original(self, ...)
-          if cfg.details k self arg w.ir then
-            runImpl cfg body inner self arg (record j k (targetOf cfg.owner k self) w)
-          else (w, .raise detailsExn)
+          -- details = ...; result = original(self, ...); journal.record(target, operation, details)
+          match cfg.details k self arg w.ir with
+          | none => (w, .raise detailsExn)
+          | some s' =>
+              let r := runImpl cfg body inner self arg { w with ir := s' }
+              match r.2 with
+              | .ret v =>
+                  (record j k (targetOf cfg.owner k self) r.1,
+                    .ret (if kind = .setter then .none else v))
+              | .raise e => (r.1, .raise e)
 
 /-- exception used when the nesting fuel runs out (stands for RecursionError) -/
 def fuelExn : Nat := 0
@@ -353,18 +365,15 @@ def NoReentry {σ : Type} : Block σ → Prop
   | .withJ j body => j ∉ journalsOf body ∧ NoReentry body
   | .attempt body => NoReentry body
 
-/-- What the journal is supposed to contain, given what executed (the reading of "one entry per
-    instrumented operation" that the code implements): a setter / method / container method
-    contributes its entry when it is *called* (whether or not it then raises); a constructor
-    contributes its entry when it *returns* and nothing when it raises; calls nested inside a
-    raising call keep their entries.  `active` is whether journal `j` is entered. -/
+/-- What the journal is supposed to contain, given what executed: one entry per *completed*
+    instrumented operation, in order of completion.  An operation that raises contributes nothing
+    (operations that completed inside it keep their entries).  The entry designates `self`, or the
+    owning graph / node for container methods.  `active` is whether journal `j` is entered. -/
 def expectedFor (owner : Obj → Obj) (j : Nat) : Bool → List Ev → List Entry
   | _, [] => []
-  | act, .start k self :: t =>
-      if act && kindOf k != .init then mkEntry k (targetOf owner k self) :: expectedFor owner j act t
-      else expectedFor owner j act t
+  | act, .start _ _ :: t => expectedFor owner j act t
   | act, .finish k self (.ret _) :: t =>
-      if act && kindOf k == .init then mkEntry k self :: expectedFor owner j act t
+      if act then mkEntry k (targetOf owner k self) :: expectedFor owner j act t
       else expectedFor owner j act t
   | act, .finish _ _ (.raise _) :: t => expectedFor owner j act t
   | act, .enter i :: t => expectedFor owner j (if i = j then true else act) t
